@@ -30,6 +30,9 @@ def run(ck):
     # the terminal test relies on the legal move list being complete and filtered (shared rule of C01)
     from .c01 import g4_legality_filter
     ck.run_rule(g4_legality_filter)
+    # mate is told from stalemate by State::is_check: its wiring (C10 B5) is necessary here
+    from .c10 import b5_is_check
+    ck.run_rule(b5_is_check)
 
 
 def names_of(b):
